@@ -708,6 +708,33 @@ class Item:
         self.rewrite(s0, bs, "/*@pre*//*@loop*/let ghost vx_key = |%s: %s| " % (p_, self.r3_extra[0]), "R3-sort-by-key")
         self.rewrite(be, semi + 1, ";\n    let ghost vx_le = |vx_a: %s, vx_b: %s| vx_key(vx_a).vx_ord_le(vx_key(vx_b));\n    vx_sort_by(&mut %s, Ghost(vx_le));/*@tail*/" % (self.r3_extra[0], self.r3_extra[0], var), "R3-sort-by-key")
 
+    def r3_let_lazy_map(self, fn, k):
+        """statement `let V = RECV.iter().map(|P| BODY);` -- a LAZY iterator consumed later, whole and once, BODY without side effects
+        (pure calls; no `return` / `?`)  ==>  the list it yields, computed in place:
+        let mut V = Vec::new(); let mut vx_i = 0; while vx_i < RECV.len() { let P = &RECV[vx_i]; let vx_e = BODY; V.push(vx_e); vx_i += 1; }
+        (evaluating a pure map early is not observable; what consumes V later gets a Vec instead of an iterator: R4 shims there)"""
+        k0, _, bo, end, _ = self.fn_span(fn)
+        hits = [h for h in re.finditer(r"\.\s*iter\s*\(\s*\)\s*\.\s*map\s*\(", self.m[bo:end])]
+        hits = [h for h in hits if re.match(r"let\s+[A-Za-z_]\w*\s*=", self.text[self._stmt_start(bo + h.start()):bo + h.start()].strip() or "x")]
+        if len(hits) < k:
+            raise Undecided("LOST-ANCHOR: R3 let-lazy-map #%d in fn %s of %s" % (k, fn, self.where()))
+        h = hits[k - 1]
+        par = bo + h.end() - 1
+        p_, bs, be, close = self._closure_after(par)
+        if re.search(r"\breturn\b|\?", self.m[bs:be]):
+            raise Undecided("R3 let-lazy-map: the closure body leaves early (return / ?)")
+        s0 = self._stmt_start(bo + h.start())
+        while s0 < bo + h.start() and self.m[s0].isspace():
+            s0 += 1
+        semi = self.m.find(";", close)
+        mo = re.match(r"let\s+([A-Za-z_]\w*)\s*=\s*(.*)$", self.text[s0:bo + h.start()], re.S)
+        if not mo or self.text[close + 1:semi].strip():
+            raise Undecided("R3 let-lazy-map: statement shape not recognised at %s:%d" % (self.relpath, self.line_of(s0)))
+        var, recv = mo.group(1), re.sub(r"\s+", "", mo.group(2))
+        iv = "vx_i" if k == 1 else "vx_i%d" % k
+        self.rewrite(s0, bs, "let mut %s = Vec::new();\n  let mut %s: usize = 0;/*@pre*/\n  while %s < %s.len()\n  /*@loop*/\n  {\n    let %s = &%s[%s];/*@body*/\n    let vx_e = " % (var, iv, iv, recv, p_, recv, iv), "R3-let-lazy-map")
+        self.rewrite(be, semi + 1, ";\n    %s.push(vx_e);/*@tail*/\n    %s = %s + 1;\n  }" % (var, iv, iv), "R3-let-lazy-map")
+
     def r3_find_map(self, fn, k):
         """let V = RECV.iter().find_map(|P| { S* ; E });  ==> index while-loop, first Some wins"""
         k0, _, bo, end, _ = self.fn_span(fn)
